@@ -150,7 +150,10 @@ def r03_4(ctx):
 
 
 def rules(ctx):
-    return [r03_1, r03_3, r03_4, c11.r11_2, c01.r01_1, c14.r14_5]
+    from ..engine import only
+    return [r03_1, r03_3, r03_4, c11.r11_2,
+            only(c01.r01_1, lambda k: k.startswith(("component predicate", "the Fragment name")), "which hosts are components"),
+            only(c14.r14_5, lambda k: "enable_object_slots" in k, "reach of enableObjectSlots")]
 
 
 EXPLANATION = (
